@@ -18,8 +18,8 @@ fn main() {
     std::panic::set_hook(Box::new(|_| {}));
     let mut rng = Rng::new(seed);
     let mut out: Vec<Violation> = Vec::new();
-    let (mut systems, mut oks, mut errs, mut warns, mut degen_warns, mut permuted, mut fallbacks) =
-        (0usize, 0usize, 0usize, 0usize, 0usize, 0usize, 0usize);
+    let (mut systems, mut oks, mut errs, mut warns, mut degen_warns, mut permuted, mut fallbacks, mut typed_lookups) =
+        (0usize, 0usize, 0usize, 0usize, 0usize, 0usize, 0usize, 0usize);
     for i in 0..n {
         let mut sys = match i % 4 {
             0 => gen_planted(&mut rng, 6, 1e-2, &SHAPES),
@@ -127,17 +127,41 @@ fn main() {
                         }
                     }
                 }
-                // typed lookups
-                if o.final_values().len() >= 3 {
-                    let p = DatumPoint::new_xy(0, 1);
-                    let pt = o.final_value_point(&p);
-                    if pt.x.to_bits() != o.final_values()[0].to_bits() || pt.y.to_bits() != o.final_values()[1].to_bits() {
-                        bad("final_value_point does not return the values at the point's ids".into(), "typed-lookup", &sys);
-                    }
-                    let circ = DatumCircle { center: p, radius: DatumDistance::new(2) };
-                    let cv = o.final_value_circle(&circ);
-                    if cv.radius.to_bits() != o.final_values()[2].to_bits() || cv.center.x.to_bits() != o.final_values()[0].to_bits() {
-                        bad("final_value_circle does not return the values at the circle's ids".into(), "typed-lookup", &sys);
+                // typed lookups: entities over arbitrary (not consecutive, not ordered) variable ids
+                let nvals = o.final_values().len();
+                if nvals >= 1 {
+                    let fv = o.final_values();
+                    for _ in 0..4 {
+                        let ids: Vec<u32> = (0..7).map(|_| rng.below(nvals) as u32).collect();
+                        let at = |k: usize| fv[ids[k] as usize].to_bits();
+                        typed_lookups += 1;
+                        if o.final_value_distance(&DatumDistance::new(ids[6])).to_bits() != at(6) {
+                            bad(format!("final_value_distance of id {} is not final_values()[{}]", ids[6], ids[6]), "typed-lookup", &sys);
+                        }
+                        let p = DatumPoint::new_xy(ids[0], ids[1]);
+                        let pt = o.final_value_point(&p);
+                        if pt.x.to_bits() != at(0) || pt.y.to_bits() != at(1) {
+                            bad(format!("final_value_point does not return the values at the point's ids {:?}", &ids[0..2]), "typed-lookup", &sys);
+                        }
+                        let circ = DatumCircle { center: p, radius: DatumDistance::new(ids[2]) };
+                        let cv = o.final_value_circle(&circ);
+                        if cv.radius.to_bits() != at(2) || cv.center.x.to_bits() != at(0) || cv.center.y.to_bits() != at(1) {
+                            bad(format!("final_value_circle does not return the values at the circle's ids {:?}", &ids[0..3]), "typed-lookup", &sys);
+                        }
+                        let arc = DatumCircularArc {
+                            center: DatumPoint::new_xy(ids[0], ids[1]),
+                            start: DatumPoint::new_xy(ids[2], ids[3]),
+                            end: DatumPoint::new_xy(ids[4], ids[5]),
+                        };
+                        match std::panic::catch_unwind(std::panic::AssertUnwindSafe(|| o.final_value_arc(&arc))) {
+                            Ok(av) => {
+                                let got = [av.center.x, av.center.y, av.a.x, av.a.y, av.b.x, av.b.y];
+                                if (0..6).any(|k| got[k].to_bits() != at(k)) {
+                                    bad(format!("final_value_arc does not return the values at the arc's ids (center, start, end) {:?}", &ids[0..6]), "typed-lookup", &sys);
+                                }
+                            }
+                            Err(_) => bad(format!("final_value_arc panics for the in-range ids (center, start, end) {:?}", &ids[0..6]), "typed-lookup", &sys),
+                        }
                     }
                 }
             }
@@ -186,7 +210,7 @@ fn main() {
         }
     }
     println!(
-        "STATS {{\"systems\": {systems}, \"ok\": {oks}, \"err\": {errs}, \"warnings_checked\": {warns}, \"degenerate_warnings\": {degen_warns}, \"fallback_outcomes\": {fallbacks}, \"permuted_guess_lists\": {permuted}, \"violations\": {}}}",
+        "STATS {{\"systems\": {systems}, \"ok\": {oks}, \"err\": {errs}, \"warnings_checked\": {warns}, \"degenerate_warnings\": {degen_warns}, \"fallback_outcomes\": {fallbacks}, \"permuted_guess_lists\": {permuted}, \"typed_lookup_rounds\": {typed_lookups}, \"violations\": {}}}",
         out.len()
     );
 }
